@@ -7,22 +7,33 @@ T0 = 2000000000
 TIMEOUT = 600
 RULE = ('for every registered JSON-RPC method (28, taken from REGISTER_APIFUNCTION) on a depth-4 zone forest '
         '(grandparent/parent/receiver/child/grandchild/sibling/unrelated root + child/global): every sender relation x every object zone '
-        '(state/event methods) x {authenticated endpoint, unauthenticated connection under an endpoint name, authenticated under an unconfigured name}; '
+        '(state/event methods) x {authenticated endpoint, unauthenticated connection under an endpoint name, authenticated under an unconfigured name, '
+        'the receiver\'s own identity (authenticated / not)}; '
         'every method x every sender relation x every claimed originZone (none, receiver zone, parent, grandparent, child, grandchild, sibling, unrelated, global, nonexistent name); accept_config/accept_commands in all four combinations for the config/command methods; '
-        'messages with no/newer/older "ts"; check results from the command endpoint; then random forests (4-9 zones, random receiver, sender, object, flags). '
+        'messages with no/newer/older "ts"; check results from the command endpoint; '
+        'event::ExecuteCommand with an "endpoint" argument (forwarding): sender relation x target endpoint (none, unknown name, receiver itself, own-zone peer, child, grandchild, parent, sibling, unrelated) x claimed originZone x checkable (missing, own zone, child, grandchild, global, zone-less) x capability of the child endpoints x accept_commands, receiver being / not being the routing master of its zone, receivers at the root, in the middle and at a leaf - observed: which zones got an event::ExecuteCommand / event::ExecutedCommand queued; '
+        'config::UpdateObject with the zone named by the message (none, unknown name, own, parent, child, sibling, unrelated, global) x zone of the existing object / of the config text of the new object (observed: zone of the created object), config::DeleteObject of zoned runtime objects; '
+        'then random forests (4-9 zones, random receiver, sender, object, flags, forwarding targets). '
         'Each message goes through the real JsonRpcConnection::MessageHandler with parameters that are prepared so that an accepted message has a visible effect. '
         'non-trivial = the case contains at least one applied and one refused message; distinct = distinct script text')
 TRUSTED = ['model: coq/Msg/MzModel.v (transcription of Zone::IsChildOf/CanAccessObject, JsonRpcConnection ctor + MessageHandler origin construction, '
-           'and one normalised origin-check pattern per handler)',
-           'source facts re-extracted each run: tools/facts_c13.py normalises the refusal checks of all REGISTER_APIFUNCTION handlers into coq/Facts/Facts_c13.v; '
-           'the specification side (which class each method belongs to, coq/Msg/MzModel.v mz_class_table) is hand-written',
-           'harness/ops_mz.cpp: builds zones/endpoints/objects from config text, sets ApiListener::m_Instance/m_LocalEndpoint/accept flags directly (no PKI, no network), '
-           'calls the private JsonRpcConnection::MessageHandler on a connection object over an unconnected stream; '
-           'script fields oz= (zone attribute of the addressed object) and ce= (sender is the command endpoint) are computed by the generator from the same forest',
+           'and one normalised origin-check pattern per handler), coq/Msg/MzFwd.v (the "endpoint" branch of ExecuteCommandAPIHandler, SyncRelayMessage/RelayMessageOne at zone granularity), '
+           'coq/Msg/MzCfg.v (params.zone of config::UpdateObject)',
+           'source facts re-extracted each run: tools/facts_c13.py normalises the refusal checks of all REGISTER_APIFUNCTION handlers into coq/Facts/Facts_c13.v, '
+           'lists every registration (method, handler function, file; number of macro uses; registrations bypassing the macro), decides per handler whether the recognised checks '
+           'stand at the top level and precede every effect (regex-based scan: pure accessors and writes to message-local data are not effects), and recognises the shapes of the forwarding branch, '
+           'of RelayMessageOne/SyncRelayMessage and of the params.zone test; '
+           'the specification side (which class each method belongs to, coq/Msg/MzModel.v mz_class_table) is hand-written - it is the statement\'s classification of the methods',
+           'harness/ops_mz.cpp: builds zones/endpoints/objects from config text, sets ApiListener::m_Instance/m_LocalEndpoint/accept flags and Endpoint capabilities directly (no PKI, no network), '
+           'calls the private JsonRpcConnection::MessageHandler on a connection object over an unconnected stream, decodes the JSON strings queued for the other endpoints; '
+           'script fields oz= (zone attribute of the addressed object) and ce= (sender is the command endpoint) are computed by the generator from the same forest; '
+           'ocaml/ops_mz.ml derives "who is connected" (two endpoints per zone, receiver a = routing master) from the script',
            'hook H1 (virtual clock) in lib/base/utility.cpp']
 ASSUMPTIONS = ['objects held by a node are in its own zone, below it, or global (hypothesis mz_placed of C13_sound; cases outside it are still compared with the model)',
                'Endpoint objects always have a zone (Endpoint::OnAllConfigLoaded; exercised by op mz_zoneless on the real code)',
-               'event::ExecuteCommand is exercised for local execution (no "endpoint" parameter or the local endpoint); the forwarding branch to child zones is not modelled',
+               'forwarding theorems about relay zones assume no global zone among the ancestors of the target zone (global zones have no endpoints and no children in any generated forest)',
+               'the relay model is at zone granularity: which endpoint of a zone gets the copy (std::set order of Endpoint pointers) is not modelled',
+               'reading of the statement for forwarded commands: accept_commands governs EXECUTION on a node; passing a command down to a child zone is decided by zone relations alone (that is what the code does: C13_forward_ignores_accept_flags)',
                'config::Update is exercised up to the staging directory (no validation child process)']
 
 METHODS = ['event::CheckResult', 'event::SetNextCheck', 'event::SetLastCheckStarted', 'event::SetStateBeforeSuppression',
@@ -374,7 +385,35 @@ def extra_stats(cases, impl):
             else:
                 refused += 1
                 per[meth + ' refused'] += 1
-    return {'messages_applied': applied, 'messages_refused_or_inert': refused,
+    fwd = collections.Counter()
+    zpc = collections.Counter()
+    selfc = 0
+    for c in cases:
+        ml = _msg_lines(c)
+        il = [l for l in impl.get(c['id'], []) if l.startswith('msg ')]
+        for s, o in zip(ml, il):
+            f = dict(t.split('=', 1) for t in s.split()[1:] if '=' in t)
+            if f['snd'] == f['recv'] + f.get('rep', 'a'):
+                selfc += 1
+            if 'xt' in f:
+                ob = dict(t.split('=', 1) for t in o.split('#')[0].split()[1:] if '=' in t)
+                kind = ('forwarded' if ob.get('xc', '-') != '-' else 'error-reply-relayed' if ob.get('xd', '-') != '-'
+                        else 'executed-locally-or-other-effect' if ob.get('app') == '1' else 'discarded')
+                fwd[kind] += 1
+                tgt = f['xt']
+                tk = ('none' if tgt == '-' else 'unknown-name' if tgt == 'unk' else 'receiver-itself' if tgt == f['recv'] + f.get('rep', 'a')
+                      else 'own-zone-peer' if tgt[:-1] == f['recv'] else 'other-endpoint')
+                fwd['target:' + tk + ' ' + kind] += 1
+                if f.get('rep', 'a') == 'b':
+                    fwd['receiver_not_routing_master'] += 1
+                if ob.get('xc', '-') != '-':
+                    fwd['forwarded_to_%d_zones' % len(ob['xc'].split(','))] += 1
+            if 'zp' in f:
+                zk = 'none' if f['zp'] == 'e' else 'unknown-name' if f['zp'] == 'x' else ('same-as-object' if f['zp'] == f.get('oz') else 'other-known-zone')
+                zpc[zk + (' applied' if ' app=1' in o else ' not_applied')] += 1
+    return {'exec_forwarding': dict(sorted(fwd.items())), 'update_object_zone_named_by_message': dict(sorted(zpc.items())),
+            'messages_under_the_receivers_own_identity': selfc,
+            'messages_applied': applied, 'messages_refused_or_inert': refused,
             'accepted_messages_with_visible_effect': 'all: the model line app=1 means "authorised and effectful"; any accepted message without a visible change would be a trace mismatch (mismatches are reported above)',
             'origin_claims': dict(sorted(claims.items())),
             'what_changed_tokens': dict(kinds), 'per_method': dict(sorted(per.items()))}
